@@ -181,6 +181,13 @@ def drive(
             mm = check_case(case)
         except Violation:
             raise
+        except HarnessError as e:
+            if "complex-step budget" in str(e):
+                # the generated program is larger than the exact-derivative reference can afford: the case is
+                # discarded (counted), never a verdict
+                rec.classes["discarded_over_reference_budget"] = rec.classes.get("discarded_over_reference_budget", 0) + 1
+                return
+            raise
         except Exception:
             # a crash of the machinery itself: keep the case for debugging (reported as a harness error, exit 2)
             try:
